@@ -69,7 +69,11 @@ def generate(seed: int, tier: str):
     else:
         b = rng.choice([5, 6, 7])
         w = {"kind": "mock", "box": [b, b, b], "n_mol": [rng.randint(1, 12)], "order": rng.choice([1, 3]), "scale": rng.choice([0.5, 1.0]),
-             "seed": rng.randrange(1 << 30), "storage": [{"kind": "numpy", "style": "numpy", "chunks": None}], "loader": "mock"}
+             "seed": rng.randrange(1 << 30), "storage": [{"kind": "numpy", "style": "numpy", "chunks": None}], "loader": "mock",
+             # projection / back-projection with per-molecule seeded noise (the same loader object is loaded several times per run)
+             "noisy": rng.random() < 0.5, "noise": rng.choice([0.2, 0.6]), "tilts": rng.choice([3, 5])}
+        if w["noisy"]:
+            w["n_mol"] = [rng.randint(1, 5)]
     n_ops = rng.randint(1, 3)
     ops = []
     for _ in range(n_ops):
@@ -120,7 +124,10 @@ def build(w, eager=False):
         pos = rg.uniform(-1.0, 1.0, size=(n, 3)) * w["scale"]
         mol = Molecules(pos, Rotation.random(n, random_state=w["seed"] % 1000), features={"g": np.arange(n) % 2, "uid": np.arange(n)})
         o = Obj()
-        o.loader = MockLoader(tmpl, mol, order=w["order"], scale=w["scale"])
+        if w.get("noisy"):
+            o.loader = MockLoader(tmpl, mol, noise=w["noise"], degrees=np.linspace(-60, 60, w["tilts"]), order=w["order"], scale=w["scale"])
+        else:
+            o.loader = MockLoader(tmpl, mol, order=w["order"], scale=w["scale"])
         o.n, o.offsets, o.tomos = n, None, [tmpl]
         return o
     # one-hot
